@@ -65,15 +65,43 @@ ArgumentContainer::ArgumentContainer( bool abbr_allowed, bool stores_sub_args /*
 /// @param[in]  key          The argument character, string or both.
 /// @since  0.2, 10.04.2016
 void ArgumentContainer::addArgument( TypedArgBase* arg_handler,
-                                     const ArgumentKey& key)
+                                     const ArgumentKey& key,
+                                     const ArgumentContainer* also_check)
 {
 
    shared_handler_t  sa( arg_handler);
 
 
+   // a key identifies one argument of a handler, no matter in which of its
+   // containers the argument is stored
+   if (also_check != nullptr)
+      also_check->checkKeyUnused( key);
+
    mArguments.addArgument( sa, key);
 
 } // ArgumentContainer::addArgument
+
+
+
+/// Checks that the given key is not used by, and does not conflict with, an
+/// argument stored in this container.
+/// @param[in]  key  The key to check.
+/// @throw  std::invalid_argument if the key is used or conflicts.
+void ArgumentContainer::checkKeyUnused( const ArgumentKey& key) const
+{
+
+   for (auto const& argi : mArguments)
+   {
+      if (argi == key)
+         throw invalid_argument( "argument with key '" + format::toString( key)
+                                 + "' stored already");
+      if (argi.mismatch( key))
+         throw invalid_argument( "argument with key '" + format::toString( key)
+                                 + "' conflicts with stored entry '"
+                                 + format::toString( argi.key()));
+   } // end for
+
+} // ArgumentContainer::checkKeyUnused
 
 
 
